@@ -82,7 +82,7 @@ var otherErrs = func() []error {
 	return out
 }()
 
-func errCode(err error) string {
+func c14ErrCode(err error) string {
 	switch err {
 	case nil:
 		return "n"
@@ -101,7 +101,7 @@ func errCode(err error) string {
 	return "?" + err.Error()
 }
 
-func errOfCode(c string) error {
+func c14ErrOfCode(c string) error {
 	switch c {
 	case "n":
 		return nil
@@ -129,7 +129,7 @@ func (s *scriptSpec) add(data []byte, code string, count int) {
 	}
 	s.parts = append(s.parts, p)
 	for i := 0; i < count; i++ {
-		s.evs = append(s.evs, scriptEv{data: data, err: errOfCode(code)})
+		s.evs = append(s.evs, scriptEv{data: data, err: c14ErrOfCode(code)})
 	}
 }
 
@@ -166,11 +166,11 @@ func runRealBufio(size int, sr *scriptReader, ops []string) (out string) {
 		}
 		if op == "r" {
 			r, sz, err := br.ReadRune()
-			fmt.Fprintf(&sb, "r%d/%d/%s", r, sz, errCode(err))
+			fmt.Fprintf(&sb, "r%d/%d/%s", r, sz, c14ErrCode(err))
 		} else {
 			n, _ := strconv.Atoi(op[1:])
 			bs, err := br.Peek(n)
-			fmt.Fprintf(&sb, "p%s/%s", hexOrDash(bs), errCode(err))
+			fmt.Fprintf(&sb, "p%s/%s", hexOrDash(bs), c14ErrCode(err))
 		}
 		out = sb.String()
 	}
@@ -438,8 +438,8 @@ func parseVia(rd io.Reader, budget int64) (obs ParseObs) {
 	return
 }
 
-// obsSummary is what C14 compares: number of statements, each EXPLAIN text, the error string.
-func obsSummary(o ParseObs) []string {
+// c14ObsSummary is what C14 compares: number of statements, each EXPLAIN text, the error string.
+func c14ObsSummary(o ParseObs) []string {
 	if o.Panicked {
 		return []string{"PANIC " + o.PanicVal + " @" + o.Site}
 	}
@@ -458,7 +458,7 @@ func obsSummary(o ParseObs) []string {
 	return out
 }
 
-func firstDiff(a, b []string) string {
+func c14FirstDiff(a, b []string) string {
 	for i := 0; i < len(a) || i < len(b); i++ {
 		var x, y string
 		if i < len(a) {
@@ -628,8 +628,8 @@ func chunkingSearch(w *W) {
 			w.Count("skipped:baseline-budget(C02)")
 			return
 		}
-		want := obsSummary(base)
-		if again := obsSummary(parseVia(bytes.NewReader(in), budget)); firstDiff(want, again) != "" {
+		want := c14ObsSummary(base)
+		if again := c14ObsSummary(parseVia(bytes.NewReader(in), budget)); c14FirstDiff(want, again) != "" {
 			w.Count("skipped:nondeterministic-baseline")
 			return
 		}
@@ -642,9 +642,9 @@ func chunkingSearch(w *W) {
 		}
 		r := NewRng(w.Seed, uint64(idx), 15)
 		check := func(nr namedReader) {
-			got := obsSummary(parseVia(nr.rd, budget))
+			got := c14ObsSummary(parseVia(nr.rd, budget))
 			w.Count("readers-run")
-			if d := firstDiff(want, got); d != "" {
+			if d := c14FirstDiff(want, got); d != "" {
 				w.Count("chunking-difference")
 				w.Report(Finding{Kind: "chunking", Key: "chunking@" + nr.name, Input: fmt.Sprintf("%q", in), InputHex: hexs(in),
 					Detail: "parse via bytes.NewReader vs " + nr.name + " differ in " + d})
